@@ -375,11 +375,18 @@ class Worker:
                     self._mailboxes.pop(mailbox_id)
                 self._tasks.pop(key, None)
 
-        # Remove all tasks that are children of `addr` from delayed tasks
-        self._delayed_tasks = [
-            t for t in self._delayed_tasks
-            if not t.is_descendant_of(addr)
-        ]
+        # Remove all tasks that are children of `addr` from delayed tasks.
+        # The list is edited in place: the main thread pops delayed tasks
+        # from it concurrently, and a task popped from the old list while
+        # a filtered copy was being built would be started a second time.
+        for t in list(self._delayed_tasks):
+            if t.is_descendant_of(addr):
+                try:
+                    self._delayed_tasks.remove(t)
+                except ValueError:
+                    # Started by the main thread since the snapshot; it is
+                    # discarded when it comes out of the ready queue.
+                    pass
 
     def _handle_communicate(
         self,
